@@ -110,7 +110,7 @@ def new_run_for(prop, rng, tier):
             'remove_ep': rng.choice([0, 1, 2]),
             'restart': 0, 'foreign': 0, 'set_extras': rng.choice([0, 0, 1]),
             'set_assoc_extras': 0, 'legacy': 0, 'neo_ingest': 0, 'neo_import': 0,
-            'neo_ingest_graph': 0, 'add_again': rng.choice([0, 1]),
+            'neo_ingest_graph': 0, 'add_again': rng.choice([0, 1]), 'reload_old': 0,
         },
     }
     cfg['max_assets'] = 8
@@ -132,10 +132,12 @@ def new_run_for(prop, rng, tier):
         cfg['w']['neo_ingest'] = rng.choice([2, 3])
         cfg['w']['neo_import'] = rng.choice([2, 3])
         cfg['w']['neo_ingest_graph'] = rng.choice([0, 1, 2])
+        cfg['w']['set_assoc_extras'] = rng.choice([0, 1])
         cfg['peer_faults'] = rng.random() < 0.4
         cfg['odd_names'] = rng.random() < 0.3
     if prop == 'C18':
         cfg['w']['legacy'] = rng.choice([2, 3])
+        cfg['w']['reload_old'] = rng.choice([1, 2])
         cfg['w']['set_extras'] = 0
         cfg['w']['add_attacker'] = rng.choice([1, 2])
         cfg['w']['add_ep'] = rng.choice([2, 4])
@@ -144,6 +146,7 @@ def new_run_for(prop, rng, tier):
     if prop == 'C07':
         cfg['w']['restart'] = rng.choice([1, 2, 3])
         cfg['w']['foreign'] = rng.choice([0, 1])
+        cfg['w']['reload_old'] = rng.choice([0, 1])
         cfg['w']['set_extras'] = rng.choice([0, 1, 2])
         cfg['w']['set_assoc_extras'] = rng.choice([0, 1])
         cfg['p_process'] = 0.01 if tier == 'quick' else 0.04
@@ -355,6 +358,7 @@ class ModelWorld(BaseWorld):
         self.paths_used = []
         self.removed_since = False
         self.neo_server = None
+        self.old_files = []         # files written earlier: (loader kind, path, expected view)
         self.neo_expected = {}      # db -> {'nodes': [...], 'rels': [...], 'single_model': view|None}
         if desc.get('source') == 'corelang':
             self.count('probe:corelang')
@@ -932,7 +936,8 @@ class ModelWorld(BaseWorld):
             return {'op': 'legacy', 'kind': 'scad', 'read_fault': read_fault,
                     'flip': [rng.random() < 0.5 for _ in range(nlinks)],
                     'ep_flip': [rng.random() < 0.5 for _ in range(neps)],
-                    'perm': rng.randrange(7), 'all_defenses': rng.random() < 0.3}
+                    'perm': rng.randrange(7), 'all_defenses': rng.random() < 0.3,
+                    'empty_dist': rng.random() < 0.5}
         return {'op': 'legacy', 'kind': '0.0.39', 'fmt': kind, 'read_fault': read_fault,
                 'wrapper': rng.random() < 0.6,
                 'shorthand': rng.random() < 0.5, 'all_defenses': rng.random() < 0.4,
@@ -961,6 +966,12 @@ class ModelWorld(BaseWorld):
                 'remove': [rng.randrange(200) for _ in range(rng.choice([0, 0, 1, 2, 4]))],
                 'prune': rng.random() < 0.3,
                 'fault': self._gen_peer_fault(rng)}
+
+    def gen_reload_old(self, rng, mi, ref):
+        live = [i for i, f in enumerate(self.old_files) if os.path.exists(f[1])]
+        if not live:
+            return None
+        return {'op': 'reload_old', 'i': rng.choice(live)}
 
     def gen_foreign(self, rng, mi, ref):
         ids = [ref.assets[h].id for h in ref.order]
@@ -1547,6 +1558,8 @@ class ModelWorld(BaseWorld):
             self.fail('C07.resave', f'saving the loaded model does not reproduce the file content\n'
                       + ('' if p2.raised else _obs_diff(_strip_meta(p.value), _strip_meta(p2.value))))
         os.remove(path2)
+        self.old_files = [f for f in self.old_files if f[1] != path]
+        self.old_files.append(('native', path, self._c18_expected(ref), None))
         self._rebind(mi, new_model)
         self.restarts += 1
         self.key_events += self.prop == 'C07'
@@ -1817,6 +1830,7 @@ class ModelWorld(BaseWorld):
                                        f'native file\n' + _obs_diff(nv, got))
         if op['kind'] == 'scad':
             ref.name = new_model.name       # how the loader names the model is not promised
+        self.old_files.append((op['kind'], path, exp, op.get('fmt')))
         self._rebind(mi, new_model)
         self.restarts += 1
         self.key_events += self.prop == 'C18'
@@ -2025,6 +2039,42 @@ class ModelWorld(BaseWorld):
         self._check_db(db, 'C19.graph_export', where)
         self.key_events += self.prop == 'C19'
         self.count('probe:attack_graph_ingested')
+        return 'ok'
+
+    def do_reload_old(self, op, mi, model, ref):
+        """A file written earlier in the run is loaded once more, after the model that
+        came out of it (or went into it) has been edited: it must still load to what
+        it held when it was written (nothing cached, nothing shared with the first load)."""
+        from maltoolbox.translators import updater, securicad
+        if op['i'] >= len(self.old_files):
+            raise Unresolvable()
+        kind, path, exp, fmt = self.old_files[op['i']]
+        if not os.path.exists(path):
+            raise Unresolvable()
+        if kind == 'native':
+            o = call(self.Model.load_from_file, path, self.factory)
+            clause = 'C07.roundtrip'
+        elif kind == 'scad':
+            cwd = os.getcwd()
+            os.chdir(self.dir)
+            try:
+                o = call(securicad.load_model_from_scad_archive, os.path.basename(path),
+                         self.lg, self.factory)
+            finally:
+                os.chdir(cwd)
+            clause = 'C18.equal'
+        else:
+            o = call(updater.load_model_from_version_0_0_39, path, self.factory)
+            clause = 'C18.equal'
+        where = f'second load of a {kind} file written earlier in the run'
+        self.count('oracle:' + clause)
+        if o.raised or o.value is None:
+            self.fail(clause, f'{where} failed: {o.exc!r}')
+        got = self._c18_view(o.value._to_dict(), self.L)
+        if got != exp:
+            self.fail(clause, f'{where}: differs from what the file held when it was written\n'
+                      + _obs_diff(exp, got))
+        self.count('probe:old_file_loaded_again')
         return 'ok'
 
 
